@@ -124,11 +124,13 @@ def handleShard (f : List String) : String × String × String :=
       let cfg : Cfg := ⟨za⟩
       let starts := startsFn st
       let d' := applyOp d op
-      let mA := showIds (shardIds cfg d starts s 0 now)
+      -- A and E through the checked model (token index and owner index apart, `panic` branch explicit)
+      let showC := fun (r : Except Err (List String)) => match r with | .ok l => showIds l | .error _ => "panic"
+      let mA := showC (shardIdsC cfg d starts s 0 now)
       let mB := showIds (shardIds cfg d starts s2 0 now)
       let mC := showIds (shardIds cfg d' starts s 0 now)
       let mD := showIds (shardIds cfg rp starts s 0 now)
-      let mE := showIds (shardIds cfg d starts s period now)
+      let mE := showC (shardIdsC cfg d starts s period now)
       let diff := firstDiff [("A", mA, canonIds oA), ("B", mB, canonIds oB), ("C", mC, canonIds oC),
                              ("D", mD, canonIds oD), ("E", mE, canonIds oE)]
       -- judge on the implementation's answers
